@@ -123,6 +123,10 @@ func (x *Exec) call(fr *frame, st *State, c *ssa.CallCommon, pos token.Pos, inst
 		site := fmt.Sprintf("%scall dyn#%d", fr.prefix, ord)
 		p := x.pos(pos)
 		pre := st.clone()
+		if x.cpHit == nil {
+			x.cpHit = map[string]bool{}
+		}
+		x.cpHit["dyn"] = true
 		for j, cp := range x.fc.CallPre["dyn"] {
 			cenv := x.specEnv(fr, pre, nil)
 			cenv.pol = -1
@@ -436,6 +440,12 @@ func (x *Exec) applyContract(fr *frame, st *State, fc *FuncContract, sig *types.
 			keys = []string{short, fmt.Sprintf("%s#%d", short, ord)}
 		}
 		for _, key := range keys {
+			if len(x.fc.CallPre[key]) > 0 {
+				if x.cpHit == nil {
+					x.cpHit = map[string]bool{}
+				}
+				x.cpHit[key] = true
+			}
 			for j, cp := range x.fc.CallPre[key] {
 				// evaluated in the caller's environment, with the callee's argument names bound as well
 				// the callee's parameter names take precedence over same-named locals of the caller
